@@ -4,8 +4,10 @@ import (
 	"fmt"
 	"go/token"
 	"go/types"
+	"runtime"
 	"sort"
 	"strings"
+	"sync"
 
 	"golang.org/x/tools/go/ssa"
 )
@@ -207,9 +209,25 @@ func checkC17(c *Ctx, r *Report) {
 
 	entries := c.decodeEntryPoints()
 	lf := newLenflow(c, 4)
-	for _, fn := range entries {
-		lf.steps = 0
-		lf.runEntry(fn, nil)
+	{
+		workers := make([]*lfEngine, len(entries))
+		sem := make(chan struct{}, runtime.NumCPU())
+		var wg sync.WaitGroup
+		for i, fn := range entries {
+			wg.Add(1)
+			sem <- struct{}{}
+			go func(i int, fn *ssa.Function) {
+				defer wg.Done()
+				defer func() { <-sem }()
+				w := newLenflowShared(c, 4, lf)
+				w.runEntry(fn, nil)
+				workers[i] = w
+			}(i, fn)
+		}
+		wg.Wait()
+		for _, w := range workers {
+			lf.merge(w)
+		}
 	}
 	k := &c17{c: c, lf: lf, cache: map[*ssa.Function]*writeSummary{}, busy: map[*ssa.Function]bool{}}
 	r.Rule("definite-assignment", "a receiver field written on some success path of a decoder is written (in full) on every success path", 28)
